@@ -39,7 +39,7 @@ DIMS = {
     "o_host": [None, "override.test:99"],
     "o_origin": [None, "https://o.test"],
     "o_suppress": [False, True],
-    "o_subproto": [None, ["chat"], ["chat", "v2.x"]],
+    "o_subproto": [None, ["chat"], ["chat", "v2.x"], ["Chat.V2", "MQTT"]],
     "o_cookie": [None, "k=v; k2=v2"],
     "o_header": [None, ["X-A: 1", "X-B: two words"], {"X-A": "1", "X-N": None}, {"X-N": None}, {"User-Agent": "ua/1.0"}],
     "o_connection": [None, "keep-alive, Upgrade"],
